@@ -31,6 +31,8 @@ func runC11(ctx *Ctx) {
 	})
 	ruleOngoingCalls(ctx, "C11-R5")
 	ruleResolveOnce(ctx, "C11-R6")
+	ruleJoinState(ctx, "C11-R6b")
+	ctx.Rep.Floor("C11-R6b", 4)
 	rulePolicy(ctx, "C11-R7", scope, heldPolicy{noDynamic: []string{"capnp.Promise.mu"}})
 	r := ctx.Rep
 	r.Floor("C11-R1", 40)
